@@ -27,13 +27,13 @@ def assemble(template_path):
     cache = {}
     while i < len(lines):
         line = lines[i]
-        m = re.match(r"^(\s*)//@item\s+(\S+)\s*::\s*(.*)$", line)
+        m = re.match(r"^(\s*)//@item(?:\[([a-z_,]+)\])?\s+(\S+)\s*::\s*(.*)$", line)
         if not m:
             linemap.append((len(out) + 1, ("template", i + 1)))
             out.append(line)
             i += 1
             continue
-        indent, rel, sel = m.group(1), m.group(2), [s.strip() for s in m.group(3).split("::")]
+        indent, flags, rel, sel = m.group(1), (m.group(2) or "").split(","), m.group(3), [s.strip() for s in m.group(4).split("::")]
         contract = []
         i += 1
         while i < len(lines) and re.match(r"^\s*//@\|", lines[i]):
@@ -46,6 +46,10 @@ def assemble(template_path):
         it = extract.find_item(src, sel)
         rec = {"file": rel, "item": " :: ".join(sel), "first_line": it.first_line, "last_line": it.last_line,
                "sha256": it.sha(), "dropped": [], "changed": []}
+        if "external_body" in flags:
+            out.append(indent + "#[verifier::external_body]")
+            linemap.append((len(out), ("template", i)))
+            rec["changed"].append("marked #[verifier::external_body]: the item is NOT verified by Verus; its assumed contract is the axiom stated next to it")
         if it.kind == "fn":
             attrs, sig, body = extract.fn_parts(it)
             kept, dropped = extract.filter_attrs(attrs)
